@@ -18,15 +18,16 @@ META = {
     "technique": "explicit-state BFS over operation programs with prefix replay on a real SFTPClient/SFTPServer "
                  "pair, canonical state merging, compared step by step with a real local file",
     "text": "Modes {r, r+, w, w+, a, a+, x} x bufsize {-1, 0, 1, 2, 7, 65536} x pipelined {off, on} (quick: 28 of the "
-            "84 configurations), all programs up to depth 3 (quick) / 4, and 5 for 28 configurations (thorough) over 14 (quick) / 18 (thorough) "
-            "operations read(n)/read()/readline()/readline(n)/readlines()/write/seek(SET,CUR,END)/tell/flush/"
-            "truncate/close on an 8-byte three-line file (absent for w, w+, x), merged on the complete state of "
-            "BufferedFile + served file + server handle + reference file; each program is additionally closed "
-            "and the final bytes compared.  Returned data, tell(), raise/no-raise, bytes after flush/close are "
-            "compared with a real local file running the same program.",
+            "84 configurations), all programs up to depth 3 (quick) / 4, and 5 for 28 configurations (thorough) over "
+            "14 (quick) / 18 (thorough) operations read(n)/read()/readline()/readline(n)/readlines()/write/"
+            "seek(SET,CUR,END)/tell/flush/truncate/close on an 8-byte three-line file (absent for w, w+, x), merged "
+            "on the complete state of BufferedFile + served file + server handle + reference file; each program is "
+            "additionally closed and the final bytes compared.  Returned data, tell(), raise/no-raise, bytes after "
+            "flush/close are compared with a real local file running the same program.",
     "note": "SFTPFile.MAX_REQUEST_SIZE scaled to 8; close() is terminal; mutator return values (None) are not "
             "compared; 'x' is paramiko's documented O_EXCL flag (opened as 'wx' vs local 'x'); files are opened "
-            "with 'b' on both sides; tell() in append mode is compared only until a documented inaccuracy",
+            "with 'b' on both sides; tell() is not compared in append mode (documented as possibly inaccurate) and "
+            "the append-mode reference is the unbuffered local file (POSIX append semantics)",
     "design_ref": "4/C27",
 }
 
@@ -38,9 +39,10 @@ REFNAME = "ref"
 
 # ----------------------------------------------------------------------------- alphabet
 def payloads():
-    fl = core.filler(16, 27)
-    lo = [bytes([97 + b % 26]) for b in fl[:6]]
-    up = [bytes([65 + b % 26]) for b in fl[6:10]]
+    # distinct letters (a seeded permutation), so that a read from a wrong offset is always visible
+    fl = core.filler(52, 27)
+    lo = [bytes([97 + i]) for i in sorted(range(26), key=lambda i: (fl[i], i))[:6]]
+    up = [bytes([65 + i]) for i in sorted(range(26), key=lambda i: (fl[26 + i], i))[:4]]
     content = lo[0] + lo[1] + b"\n" + lo[2] + lo[3] + b"\n" + lo[4] + lo[5]
     w1 = up[0] + up[1]
     w2 = up[2] + b"\n" + up[3]
@@ -356,6 +358,11 @@ def run_config(item, acc):
             # nontrivial = distinct (configuration, observable behaviour): the program did something the
             # oracle could judge (returned data / position / raise pattern / final bytes)
             acc.nt(repr((cfg, [x if x[0] == "raise" else (x[0], x[1]) for x in sr.results], sr.final)))
+            if len(hist) == depth and len(acc.samples) < 3 and any(
+                    x[0] == "ret" and x[1] for x in sr.results):
+                acc.sample({"config": {"mode": cfg[0], "bufsize": cfg[1], "pipelined": cfg[2]},
+                            "program": jprog(hist), "results_equal_to_local_file": sr.results,
+                            "final_bytes": sr.final})
         return st
 
     def enabled(st, hist):
@@ -404,7 +411,7 @@ def run_config(item, acc):
     acc.count("configs")
     acc.count("frontier_left_at_depth_cap", res.frontier_left)
     acc.cmax("max_depth", res.max_depth)
-    if len(acc.samples) < 2:
+    if len(acc.samples) < 5:
         acc.sample({"config": {"mode": cfg[0], "bufsize": cfg[1], "pipelined": cfg[2]},
                     "states": res.states, "transitions": res.transitions, "depth": res.max_depth})
     SP.remove_scratch()
@@ -433,6 +440,9 @@ def main(tier):
          "merged states have equal futures because the canon holds every mutable field of BufferedFile/SFTPFile "
          "used by the operations, the served bytes, SFTPHandle.__tell and the descriptor offset, and the reference "
          "file's content and position; <=%d outstanding pipelined requests (the >100 branch is C29/C30)" % depth,
+         "reference = real local file opened with the same mode and bufsize; in append modes the unbuffered local "
+         "file (CPython's buffered append files track a position that ignores O_APPEND); tell() not compared in "
+         "append mode (documented); 'x' = paramiko 'wx' vs local 'x'",
          "payload letters depend on VERIF_SEED, the line structure (xx\\nxx\\nxx) does not"])
     items = [(tier, cfg, depth_of(cfg)) for cfg in configs(tier)]
     # heaviest (deepest, read/write) configurations first for load balance
